@@ -107,10 +107,15 @@ def metaExc : MetaDefect → ValExc
 def readPhase (t : Tables) (parse : ParseExc → Option Nat) (val : ValExc → Option Nat) : Body → Option Resp
   | .valid => none
   | .cancel => none                          -- `vgi_rpc.cancel` is not looked at here
+  | .parseFail .ipcError =>
+    -- `_read_request` may itself refuse an invalid request batch as RpcError("ProtocolError")
+    some (tableResponse t (if t.readWrapsBatchValidation then val .rpcError else parse .ipcError))
   | .parseFail e => some (tableResponse t (parse e))
   | .badMeta m => some (tableResponse t (val (metaExc m)))
   | .badParams .mismatch => some (tableResponse t (val .typeError))
-  | .badParams .badNames => some (tableResponse t (parse .unicodeDecode))   -- raised when the kwargs are built
+  | .badParams .badNames =>
+    -- raised when the kwargs are built; `_read_request` may wrap that as RpcError("ProtocolError")
+    some (tableResponse t (if t.readWrapsKwargs then val .rpcError else parse .unicodeDecode))
 
 /-- `_RpcResource.on_post` + `_run_unary_sync` -/
 def unaryResource (t : Tables) (rq : Req) : Resp :=
